@@ -150,7 +150,7 @@ def handle : Handler := fun op a =>
       let kind ← a.get? "kind"
       let ops ← (a.get? "ops").bind parseOps
       match kind with
-      | "vec" => pure (trace (vecImpl Int) vecIntern ops)
+      | "vec" => pure (trace (vecImpl (0 : Int)) vecIntern ops)
       | "svec" => pure (trace (svecImpl 4 (0 : Int)) (svecIntern 4) ops)
       | "arr" => pure (trace (arrImpl 3 (0 : Int)) (arrIntern 3) ops)
       | "tuple" => pure (trace (arrImpl 3 (0 : Int)) (arrIntern 3) ops)
